@@ -51,6 +51,7 @@ type LifeScenario struct {
 	PeerStalled        bool   `json:"peer_stalled"`                  // with slow_server: the peer never reads again (a write in flight returns only when the socket is closed)
 	TimeoutMs          int    `json:"timeout_ms"`                    // Config.Timeout (0 = the scenario's default of 3 s): a legal, rarely tuned value
 	CloseInDiscHandler bool   `json:"close_in_disconnected_handler"` // the DISCONNECTED handler calls Close itself (a shared shutdown routine): on a client that is not connected that does nothing, and returns
+	LivePings          int    `json:"live_pings"`                    // that many server PINGs arrive (and are being answered: nothing gates the event loop) just before the cause; with a peer that no longer reads the answers pile up
 	CarelessSender     bool   `json:"careless_sender"`               // with out_from=user: the user goroutine goes on calling Privmsg whether or not the client is connected (it ends up waiting in Raw on the dead connection's full queue: an application goroutine, not one of the connection's)
 	OverlapConnect     bool   `json:"overlap_connect"`               // two goroutines call Connect at about the same time while the client is down; the first one's dial takes a while
 	HoldMs             int    `json:"hold_ms"`                       // the gated foreground handler keeps working this long after the cause (longer than Timeout, say)              // before the cause the server stays connected but silent for this long, never answering the client's PINGs (Timeout is set to a fifth of it)
@@ -513,6 +514,14 @@ func runLifeScenario(sc LifeScenario) LifeResult {
 		case <-time.After(2 * time.Second):
 			res.Notes = append(res.Notes, "background handler was not entered")
 		}
+	}
+	if sc.LivePings > 0 {
+		var sb strings.Builder
+		for k := 0; k < sc.LivePings; k++ {
+			sb.WriteString(fmt.Sprintf("PING :live-%d\r\n", k))
+		}
+		srv.Send(sb.String())
+		time.Sleep(40 * time.Millisecond)
 	}
 	if sc.SilentMs > 0 { // the server says nothing and answers no PING: the link is idle, not dead; whatever the client makes of it, the rest must still work
 		time.Sleep(time.Duration(sc.SilentMs) * time.Millisecond)
